@@ -139,13 +139,15 @@ TFsm        == IsEv("fsm") /\ Step(Fsm(Ev.n))
 TCrash      == IsEv("crash") /\ Step(Crash(Ev.n))
 TRestart    == IsEv("restart") /\ Step(Restart(Ev.n))
 TChangeCfg  == IsEv("changeConfig") /\ Step(ChangeConfigOp(Ev.n, NodesFun(Ev.nodes)))
+TShutdown   == IsEv("shutdown") /\ Step(Shutdown(Ev.n))
+TFinal      == (IsEv("final") \/ IsEv("fairCheck")) /\ l' = l + 1 /\ Prophecy /\ UNCHANGED <<node, rpcs, orph, gh, ctr, ev, hist>>
 TDisc       == IsEv("disconnected")
                  /\ IF node[Ev.n].leader = Ev.peer THEN Step(Disconnected(Ev.n, Ev.peer))
                     ELSE l' = l + 1 /\ Prophecy /\ UNCHANGED <<node, rpcs, orph, gh, ctr, ev, hist>>   \* no effect unless the peer is the known leader
 
 TInit == Init /\ l = 0 /\ ordc = FixedOrd /\ rfc = TRUE
 TNext == \/ TReset \/ TSkipped \/ TTimeout \/ TVoteReq \/ TVoteResp \/ TReplSend \/ TAppendReq \/ TAppendResp
-         \/ TReplFail \/ TReplPoll \/ TLdrUpdates \/ TClient \/ TFsm \/ TCrash \/ TRestart \/ TDisc \/ TChangeCfg \/ TTakeSnap \/ TSnapGAsk \/ TSnapGStore \/ TSnapTaken
+         \/ TReplFail \/ TReplPoll \/ TLdrUpdates \/ TClient \/ TFsm \/ TCrash \/ TRestart \/ TDisc \/ TShutdown \/ TFinal \/ TChangeCfg \/ TTakeSnap \/ TSnapGAsk \/ TSnapGStore \/ TSnapTaken
 
 \* printed at every state; the last line printed tells how far the trace was accepted
 Progress == (l = Len(Trace)) => PrintT(<<"TRACE-ACCEPTED", l>>)
